@@ -50,6 +50,7 @@ pub fn scopes(rep: &Report, checks: Checks) {
     } else {
         run_structures(rep, "equal siblings: 18 trees with identical elements / members side by side x {NoSD, Top, All, 5 Custom} x all selections, decoys off and on", &equal_sibling_trees(), &few_strategies, &vw_cfgs_early, checks, true);
     }
+    run_structures(rep, "related-value pairs: 23 values (one number as integer / float / string, literals and their spellings, empty containers and their spellings) in every ordered pair, equal pairs included, in 5 container shapes x {Top, All, 2 Custom} x all selections", &value_pair_trees(), &pair_strategies, &cheap, checks, true);
     // D3: pairs of special strings in one container
     let pairs = pair_alphabet_trees();
     run_structures(rep, "string-pair pass: every ordered pair of the string alphabet side by side in 5 container shapes x {Top, All, 2 Custom}", &pairs, &pair_strategies, &cheap, checks, false);
